@@ -32,10 +32,13 @@ pub struct Profile {
 	/// payment workload: multi-part sends, sends that the recipient must refuse, duplicate payment ids,
 	/// event handlers that refuse an event, timer ticks before the final quiescent point
 	pub pay_workload: bool,
+	/// after the off-chain steps a channel is closed unilaterally (latest or revoked commitment) and the
+	/// chain is mined until every output has matured and been swept
+	pub onchain: bool,
 }
 impl Profile {
 	pub fn for_prop(prop: &str, thorough: bool) -> Profile {
-		let base = Profile { prop: prop.to_string(), steps: if thorough { 1500 } else { 600 }, nodes: 2, allow_async: false, allow_deferred: false, allow_disconnect: true, allow_fee_updates: true, allow_ticks: true, coop_close_at_end: true, multi_hop: false, mid_settles: true, allow_restart: false, allow_force_close: false, persist_manager_often: false, parallel: false, pay_workload: false };
+		let base = Profile { prop: prop.to_string(), steps: if thorough { 1500 } else { 600 }, nodes: 2, allow_async: false, allow_deferred: false, allow_disconnect: true, allow_fee_updates: true, allow_ticks: true, coop_close_at_end: true, multi_hop: false, mid_settles: true, allow_restart: false, allow_force_close: false, persist_manager_often: false, parallel: false, pay_workload: false, onchain: false };
 		match prop {
 			"C01" => base,
 			"C05" => Profile { allow_async: true, allow_restart: true, allow_force_close: true, ..base },
@@ -44,6 +47,7 @@ impl Profile {
 			"C03" => Profile { allow_async: true, nodes: 3, multi_hop: true, allow_restart: true, parallel: true, pay_workload: true, ..base },
 			"C04" => Profile { allow_async: true, nodes: 3, multi_hop: true, parallel: true, pay_workload: true, ..base },
 			"C12" => Profile { allow_async: true, allow_deferred: true, nodes: 3, multi_hop: true, allow_restart: true, allow_force_close: true, parallel: true, pay_workload: true, ..base },
+			"C06" | "C07" => Profile { onchain: true, steps: if thorough { 260 } else { 160 }, allow_async: false, coop_close_at_end: false, mid_settles: true, ..base },
 			"C10" => Profile { allow_async: true, allow_deferred: true, nodes: 3, multi_hop: true, allow_restart: true, persist_manager_often: true, ..base },
 			_ => base,
 		}
@@ -197,6 +201,14 @@ fn run_one_inner(args: &Args, prof: &Profile, run: u64, rep: &mut Report, make_m
 			// serialized monitor_update_blocked_actions. Release builds read the manager fine. Observation.
 			outcome = "ldk debug assertion (FreeDuplicateClaimImmediately found in the persisted action queue)".to_string();
 			rep.count("ldk_debug_assert_free_duplicate_claim_in_persisted_queue");
+		},
+		Err(p) if p.contains("self.pending_claim_requests.get(&claim_id).is_none()") => {
+			// Debug-only assertion in OnchainTxHandler::update_claims_view_from_requests: after a reload the
+			// manager regenerates the ChannelForceClosed update of a closed anchor channel whose commitment has
+			// not confirmed yet, and the monitor queues the same commitment-bump claim (same claim id) again.
+			// Release builds overwrite the request and hand the user a second, identical bump event. Observation.
+			outcome = "ldk debug assertion (duplicate claim id after reload)".to_string();
+			rep.count("ldk_debug_assert_duplicate_claim_id_after_reload");
 		},
 		Err(p) => {
 			outcome = format!("panic: {}", p);
@@ -700,6 +712,16 @@ fn drive(sim: &mut Sim, prof: &Profile, rng: &mut Rng, rep: &mut Report, ctype: 
 			},
 		}
 		sim.dispatch(rep);
+		let busy = sim.w.chans.iter().any(|c| !c.closed && c.ready && c.model.as_ref().map(|m| m.pending_htlcs().len() >= 2).unwrap_or(false));
+		if prof.onchain && rng.chance(1, if busy { 3 } else { 12 }) {
+			let open: Vec<usize> = sim.w.chans.iter().filter(|c| !c.closed && c.ready).map(|c| c.idx).collect();
+			if !open.is_empty() {
+				let ci = *rng.pick(&open);
+				let node = if rng.chance(1, 2) { sim.w.chans[ci].a } else { sim.w.chans[ci].b };
+				crate::onchain::capture(sim, node, ci);
+				sim.dispatch(rep);
+			}
+		}
 		if prof.persist_manager_often {
 			for k in 0..n {
 				if sim.w.nodes[k].mgr.get_and_clear_needs_persistence() && rng.chance(2, 3) && !sim.w.nodes[k].persister.dead.load(Ordering::SeqCst) {
@@ -715,6 +737,13 @@ fn drive(sim: &mut Sim, prof: &Profile, rng: &mut Rng, rep: &mut Report, ctype: 
 		if sim.w.chans.iter().all(|c| c.closed) {
 			break;
 		}
+	}
+	if prof.onchain {
+		sim.w.step += 1;
+		crate::onchain::phase(sim, rng, rep)?;
+		sim.dispatch(rep);
+		sim.end(rep);
+		return Ok(());
 	}
 	// final quiescence
 	sim.w.step += 1;
@@ -759,6 +788,9 @@ fn drive(sim: &mut Sim, prof: &Profile, rng: &mut Rng, rep: &mut Report, ctype: 
 		sim.settled(rep);
 	} else {
 		rep.count("settle_budget_exhausted");
+	}
+	if ok && prof.pay_workload && sim.raised.is_empty() && !prof.allow_restart {
+		deadline_endgame(sim, rng, rep);
 	}
 	if ok && prof.coop_close_at_end && sim.raised.is_empty() {
 		coop_close_all(sim, rng, rep);
@@ -814,6 +846,95 @@ fn handle_crashes(sim: &mut Sim, rng: &mut Rng, rep: &mut Report, async_on: &mut
 		}
 	}
 	Ok(())
+}
+
+/// Claim-deadline sweep: a payment (one or two parts with different expiries, close to the minimum
+/// final CLTV) is left claimable while blocks are mined up to a chosen distance from the advertised
+/// claim deadline; then the user claims. Judged by the payment monitor (I2, I4).
+fn deadline_endgame(sim: &mut Sim, rng: &mut Rng, rep: &mut Report) {
+	while !sim.w.claimable.is_empty() {
+		sim.w.claim(0);
+	}
+	if !sim.w.settle(60) {
+		sim.dispatch(rep);
+		return;
+	}
+	sim.dispatch(rep);
+	let n = sim.w.nodes.len();
+	let src = rng.below(n as u64 - 1) as usize;
+	let (src, dst) = if rng.chance(1, 2) { (src, src + 1) } else { (src + 1, src) };
+	let cs: Vec<usize> = sim.w.chan_between(src, dst).into_iter().filter(|c| !sim.w.chans[*c].closed && sim.w.chans[*c].ready && sim.w.chans[*c].fault.is_none()).collect();
+	if cs.is_empty() {
+		return;
+	}
+	let usable = sim.w.nodes[src].mgr.list_usable_channels();
+	let mut parts: Vec<(Vec<usize>, u64)> = vec![];
+	let mut cltvs = vec![];
+	let nparts = 1 + rng.below(2) as usize;
+	for k in 0..nparts {
+		let c = cs[k % cs.len()];
+		let cid = sim.w.chans[c].chan_id();
+		let hi = usable.iter().find(|d| d.channel_id == cid).map(|d| d.next_outbound_htlc_limit_msat).unwrap_or(0);
+		if hi < 2_000_000 {
+			continue;
+		}
+		parts.push((vec![c], 1_000_000 + rng.below(hi / 4)));
+		cltvs.push(42 + rng.below(5) as u32);
+	}
+	if parts.is_empty() {
+		return;
+	}
+	sim.w.step += 1;
+	sim.w.note(format!("DEADLINE-ENDGAME node{}->node{} parts={:?} final cltv deltas {:?}", src, dst, parts, cltvs));
+	if sim.w.send_payment_ex(src, &parts, cltvs[0], crate::sim::SendOpts { part_cltv: Some(cltvs.clone()), class: "deadline", ..Default::default() }, None).is_err() {
+		sim.dispatch(rep);
+		return;
+	}
+	let ok = sim.w.settle(60);
+	sim.dispatch(rep);
+	if !ok {
+		return;
+	}
+	sim.settled(rep);
+	let c = match sim.w.claimable.iter().position(|c| c.node == dst) {
+		Some(k) => sim.w.claimable[k].clone(),
+		None => {
+			rep.count("deadline_endgame_not_claimable");
+			return;
+		},
+	};
+	let deadline = match c.deadline {
+		Some(d) => d,
+		None => return,
+	};
+	let k: i64 = *rng.pick(&[3i64, 2, 1, 1, 0, 0, -1, -2]);
+	let target = (deadline as i64 - k) as u32;
+	let mut guard = 0;
+	while sim.w.chain.height() < target && guard < 60 {
+		guard += 1;
+		sim.w.mine(1);
+		let ok = sim.w.settle(40);
+		sim.dispatch(rep);
+		if !ok {
+			return;
+		}
+	}
+	sim.w.step += 1;
+	sim.w.note(format!("DEADLINE-ENDGAME claim at height {} (deadline {})", sim.w.chain.height(), deadline));
+	rep.count("deadline_endgames");
+	if sim.w.chain.height() < deadline {
+		rep.count("deadline_endgame_claims_below_deadline");
+	} else {
+		rep.count("deadline_endgame_claims_at_or_after_deadline");
+	}
+	if let Some(pos) = sim.w.claimable.iter().position(|x| x.hash == c.hash) {
+		sim.w.claim(pos);
+	}
+	let ok = sim.w.settle(60);
+	sim.dispatch(rep);
+	if ok {
+		sim.settled(rep);
+	}
 }
 
 fn coop_close_all(sim: &mut Sim, rng: &mut Rng, rep: &mut Report) {
